@@ -26,7 +26,7 @@ def dispatch (args : List String) : String :=
     else if op == "df" || op.startsWith "df." then opDataFormat args
     else if op.startsWith "csv." then opCsv args
     else if op.startsWith "cid." then opCid args
-    else if op == "ods" || op == "odsg" then opOds args
+    else if op == "ods" || op == "odsg" || op == "odsc" then opOds args
     else if op == "excel" then opExcel args
     else "bad-op"
 
